@@ -575,9 +575,113 @@ func c11DirectSeq() *Scenario {
 	}
 }
 
+// yieldWC is a transport that takes the bytes of one Write in two steps with a scheduling point in
+// between (a pipe whose reader is slow); yieldR hands its data out in halves the same way.
+type yieldWC struct{ buf []byte }
+
+func (w *yieldWC) Write(p []byte) (int, error) {
+	h := len(p) / 2
+	w.buf = append(w.buf, p[:h]...)
+	vs.Yield("write")
+	w.buf = append(w.buf, p[h:]...)
+	return len(p), nil
+}
+func (w *yieldWC) Close() error { return nil }
+
+type yieldR struct {
+	data  []byte
+	reads int
+}
+
+func (r *yieldR) Read(p []byte) (int, error) {
+	if len(r.data) == 0 {
+		return 0, io.EOF
+	}
+	n := len(r.data)
+	if r.reads++; r.reads == 1 {
+		n = (n + 1) / 2
+	}
+	if n > len(p) {
+		n = len(p)
+	}
+	vs.Yield("read")
+	copy(p, r.data[:n])
+	r.data = r.data[n:]
+	return n, nil
+}
+
+// c11TwoChannels: two channels made by ONE Framing value (two connections of one server, say) are
+// used at the same time by two goroutines. Each connection must still carry exactly its own records:
+// nothing of a framing's per-channel state may be shared between the channels it creates.
+func c11TwoChannels(fs framingSpec) *Scenario {
+	recs := map[string][]string{
+		"A": {`{"conn":"A","n":1,"pad":"aaaaaaaaaaaaaaaaaaaaaaaaaaaaaaaaaaaaaaaaaaaaaaaa"}`, `{"conn":"A","n":2}`},
+		"B": {`{"conn":"B"}`, `{"conn":"B","n":2,"pad":"bbbbbbbbbbbbbbbbbbbbbbbb"}`},
+	}
+	return &Scenario{
+		Name:   fs.Name + ": two channels of one framing value, sending and then receiving concurrently",
+		Params: map[string]any{"framing": fs.Name, "records": recs},
+		Bounds: Bounds{3, -1, 0},
+		New: func() *Instance {
+			body := func() {
+				w := map[string]*yieldWC{"A": {}, "B": {}}
+				var j Join
+				for _, c := range []string{"A", "B"} {
+					c := c
+					ch := fs.F(bytes.NewReader(nil), w[c])
+					j.Go("send"+c, func() {
+						for _, r := range recs[c] {
+							if err := ch.Send([]byte(r)); err != nil {
+								vs.Yield("note")
+								vs.Note("send-error", c, err.Error())
+							}
+						}
+					})
+				}
+				j.Wait()
+				var k Join
+				for _, c := range []string{"A", "B"} {
+					c := c
+					ch := fs.F(&yieldR{data: w[c].buf}, &bufWC{})
+					k.Go("recv"+c, func() {
+						var got []string
+						for i := 0; i < len(recs[c])+1; i++ {
+							rec, err := ch.Recv()
+							got = append(got, string(rec)+"/"+errStr(err))
+						}
+						vs.Yield("note")
+						vs.Note("got", c, strings.Join(got, " "))
+					})
+				}
+				k.Wait()
+			}
+			check := func(x *vs.Exec) []Viol {
+				v := genericRules(x, nil)
+				Hit("C11.R1")
+				for _, e := range x.Log {
+					switch e.K {
+					case "send-error":
+						v = append(v, Viol{"C11.R1", fs.Name + " connection " + e.Arg(0) + ": Send failed: " + e.Arg(1)})
+					case "got":
+						want := strings.Join(recs[e.Arg(0)], "/<nil> ") + "/<nil> /EOF"
+						if e.Arg(1) != want {
+							v = append(v, Viol{"C11.R1", fmt.Sprintf("%s connection %s delivered %q, want %q (another channel made by the same framing value was in use at the same time)", fs.Name, e.Arg(0), e.Arg(1), want)})
+						}
+					}
+				}
+				return v
+			}
+			return &Instance{Body: body, Check: check}
+		},
+	}
+}
+
 func c11Scenarios(tier string) []*Scenario {
 	var out []*Scenario
 	q := tier == "quick"
+	for _, fs := range framings() {
+		out = append(out, c11TwoChannels(fs))
+	}
 	for _, fs := range framings() {
 		ml := 3
 		if q {
@@ -665,8 +769,9 @@ func refHeader(stream []byte, mtype string, strict bool) refResult {
 			}
 			// partial header line at end of stream: the header block can never be completed, so no record
 			// may be produced from it (a record cut off by the end of the stream is an error). The one
-			// exception left open is a lone CR after a complete block (CR LF CR <EOF>).
-			if string(stream[pos:]) == "\r" {
+			// exception left open is a tail made of CR bytes only (CR LF CR <EOF>, CR LF CR CR <EOF>):
+			// like a CR inside a line below, the documentation does not say what a bare CR is.
+			if tail := stream[pos:]; len(tail) > 0 && len(bytes.Trim(tail, "\r")) == 0 {
 				return refResult{V: unspec}
 			}
 			return refResult{V: mustFail}
